@@ -153,4 +153,56 @@ theorem allow405_exact (mm : MethodMap) (m : Method) :
 #print axioms sink_static_order
 #print axioms allow405_exact
 #print axioms first_match
+
+/-! ### suffixed routes, keyword arguments, meta methods (build round) -/
+
+/-- **suffix isolation**: through a route added with `suffix` the resource's own responder runs exactly for the methods
+    `m` of COMBINED_METHODS that have a callable `on_<m>_<suffix>` (`on_<m>` when no suffix was given) — an attribute
+    with any other suffix is never reached -/
+theorem suffix_isolation (rid : Nat) (combined : List Method) (attrs : List Attr) (suffix : Option String) (m : Method) :
+    (mkMethodMap rid combined attrs suffix).lookup m = .resource rid m ↔
+      (m ∈ combined ∧ ∃ a ∈ attrs, a.method = m ∧ a.suffix = suffix) := by
+  have h := lookup_resource_iff (mkMethodMap rid combined attrs suffix) m
+  simp only [mkMethodMap] at h ⊢
+  rw [h]
+  simp [mapHttpMethods, List.mem_filter, List.any_eq_true]
+
+/-- a method that is not in COMBINED_METHODS is answered 400 on every route (never 405, never a responder) -/
+theorem unknown_method_400 (rid : Nat) (combined : List Method) (attrs : List Attr) (suffix : Option String) (m : Method)
+    (hm : m ∉ combined) (ho : m ≠ "OPTIONS") : (mkMethodMap rid combined attrs suffix).lookup m = .badRequest := by
+  have h1 : (mapHttpMethods combined attrs suffix).contains m = false := by
+    simp [mapHttpMethods, List.mem_filter, hm]
+  have h2 : combined.contains m = false := by simpa using hm
+  have h3 : (m == "OPTIONS") = false := by simpa using ho
+  simp only [MethodMap.lookup, mkMethodMap, h1, h2, h3]; rfl
+
+/-- **kwargs**: a routed request gets the template fields; a request that fell through to sink `id` gets exactly that sink's
+    named groups; a static route and the 404 responder get none -/
+theorem kwargs_are_fields_or_groups (a : App) (m : Method) (hits : Kind × Nat → Bool) (groups : Nat → Kw) :
+    (∀ f, a.getParams (some f) hits groups = f) ∧
+    (∀ id, a.getResponder none m hits = .sink id → a.getParams none hits groups = groups id) ∧
+    (∀ id, a.getResponder none m hits = .static id → a.getParams none hits groups = []) ∧
+    (a.getResponder none m hits = .notFound → a.getParams none hits groups = []) := by
+  unfold App.getResponder App.getParams
+  refine ⟨fun f => rfl, fun id => ?_, fun id => ?_, ?_⟩
+  all_goals
+    cases hf : a.order.find? hits with
+    | none => simp
+    | some e =>
+      obtain ⟨k, i⟩ := e
+      cases k <;> simp
+      try (intro h; rw [h])
+
+/-- **WEBSOCKET is not an HTTP method**: whatever is registered, an HTTP request using it is answered 400 -/
+theorem websocket_meta_is_400 (a : App) (route : Option MethodMap) (hits : Kind × Nat → Bool) :
+    a.dispatchHttp route "WEBSOCKET" hits = .badRequest := by
+  simp [App.dispatchHttp, metaMethods]
+
+/-- for every other method the HTTP entry point is `_get_responder` -/
+theorem dispatchHttp_eq (a : App) (route : Option MethodMap) (m : Method) (hits : Kind × Nat → Bool)
+    (hm : m ≠ "WEBSOCKET") : a.dispatchHttp route m hits = a.getResponder route m hits := by
+  have hc : metaMethods.contains m = false := by simp [metaMethods, hm]
+  unfold App.dispatchHttp
+  rw [hc]; rfl
+
 end Dp
